@@ -105,7 +105,7 @@ extern ssize_t mpt_history_values(MPT_STRUCT(history) *hist, size_t len, const v
 			/* update data type info */
 			dat = (void *) (buf + 1);
 			++dlen;
-			src = curr + 1;
+			src = ++curr;
 			++done;
 			
 			if (!--len) {
